@@ -65,6 +65,15 @@ T("C15", f"{GEN}: every model/configurator x objective alphabet x solver answers
 T("C16", f"{GEN}: JSON round-trip edge (twice) from every raw / connective / configurator state; truth tables, ids, defaults, polyhedron modulo generated names",
   "Every state inside the bound is serialised, passed through json.dumps/loads, reloaded and compared with the reference truth of the original on all assignments.",
   "trusted: mc/ref.py; canonical renaming of generated ids in c16.py", "4/C16")
+T("C09", "explicit-state exploration of call histories on the real objects: every call sequence of length <=2 (<=3) over ~180 API calls, each replayed in a child forked from a pristine parent; differential oracle vs pristine observations + deep fingerprints",
+  "All call sequences inside the bound over a world of aliased models and equal-but-different configurators are executed; every observation is compared with the pristine process and every transition must leave all object fingerprints unchanged.",
+  "trusted: fork() isolation, fingerprint walker (mc/fingerprint.py); cache fill levels are hidden state; open finding D3 is matched by a defect model (see known_findings.json)", "4/C09")
+T("C17", f"{GEN}: base64 round-trip edge (twice) from every proposition / configurator / configurator polyhedron state; deep fingerprint + query menu",
+  "Every state inside the bound is packed and unpacked; the deep fingerprint must be a self-loop and the query menu must answer identically.",
+  "trusted: pickle/gzip/base64 of the standard library; fingerprint walker", "4/C17")
+T("C18", "explicit-state exploration of add() sequences: 4 bases x all rule sequences of length <=2 (<=3); every prefix compared with direct construction; fingerprints of earlier configurators unchanged",
+  "All addition sequences inside the bound are executed on real objects; each accepted prefix is compared with a directly built configurator (structure, default priorities, polyhedron, exact-solver selections).",
+  "trusted: exact solver in mc/cfgspace.py, fingerprint walker", "4/C18")
 
 
 def build():
